@@ -33,6 +33,26 @@ def Sim.allDone : Sim → Bool
   | .m _ c => c.threads.all (·.finished)
   | .th _ c => c.threads.all (·.finished)
 
+/-- (thread, lock) for every unfinished thread that is inside an operation on a lock -/
+def Sim.blockedOn : Sim → List (Nat × Nat)
+  | .w _ c => (List.range c.threads.size).filterMap fun t =>
+      match c.threads[t]? with
+      | some thr => if thr.finished then none else
+          (match thr.pend with
+           | .atom lk _ => some (t, lk)
+           | .rel lk _ _ => some (t, lk)
+           | .dng lk _ _ => some (t, lk)
+           | _ => none)
+      | none => none
+  | .m _ c => (List.range c.threads.size).filterMap fun t =>
+      match c.threads[t]? with
+      | some thr => if thr.finished then none else
+          (match thr.pend with
+           | .atom a => some (t, MClient.agentLk c a)
+           | _ => none)
+      | none => none
+  | .th _ _ => []
+
 def Sim.uaf : Sim → Nat
   | .w _ _ => 0
   | .m _ c => c.core.uaf
@@ -211,10 +231,10 @@ def processQ (r : Run) (line : String) (st : Stats) : Run × Stats :=
     let mon := toks.foldl (fun m tok =>
       let r' := { r with mon := m }
       if tok.startsWith "G+" then
-        let m1 := fifoGrant (stepTok m tok) tid tok
+        let m1 := fifoGrant (stepTok m tok tid) tid tok
         { m1 with hb := hbTok m1.hb tid tok }
       else if tok.startsWith "G" then
-        let m1 := stepTok m tok
+        let m1 := stepTok m tok tid
         { m1 with hb := hbTok m1.hb tid tok }
       else if tok.startsWith "R" && r.sc.comp == "thread" then
         { m with th := threadRes r.sc.seq tid m.th ((r.sc.tprogs.getD tid #[])[((tok.drop 1).toString.splitOn "=").head!.toNat?.getD 0]?) tok }
@@ -297,7 +317,14 @@ partial def loop (h : IO.FS.Stream) (cur : Option Run) (pend : Scen) (st : Stats
     let r := match cur with
       | some r => r
       | none => mkRun pend
-    let status := (splitWs line).getD 1 "ok"
+    let status0 := (splitWs line).getD 1 "ok"
+    -- a stuck execution in which every waiting thread waits on a lock on which *another* thread still holds a
+    -- grant is a cycle of the client program (the premise "every grant is eventually released" fails), not a
+    -- lost hand-over of the lock
+    let blocked := r.sim.blockedOn
+    let status := if status0 == "stuck" && !blocked.isEmpty &&
+        blocked.all (fun (t, lk) => r.mon.grants.any (fun g => g.lk == lk && g.tid != t))
+      then "stuck-held" else status0
     -- all threads finished in the model too?
     let modelDone := r.sim.allDone
     let corr := match r.mismatch with
